@@ -520,11 +520,24 @@ def b_abs(it, args, kw, fr):
 
 
 def b_float(it, args, kw, fr):
+    if not args:
+        return VReal(0)
     v = it.force(args[0])
+    if isinstance(v, VJson):
+        v = it.json_narrow(v)
     if isinstance(v, VReal):
         return v
+    if isinstance(v, VBool):
+        return VReal(z3.ToReal(it._num(v)))
     if isinstance(v, VInt):
+        # an int that rounds to something beyond the largest double (round-half-even: from 2**1024 - 2**970 on) raises
+        # OverflowError; below that the value is kept exactly (floats as reals: rounding is not modelled)
+        lim = z3.IntVal(2 ** 1024 - 2 ** 970)
+        if it.ctx.branch(z3.Or(v.z >= lim, v.z <= -lim), "float-overflow"):
+            it.raise_("OverflowError", VStr("int too large to convert to float"))
         return VReal(z3.ToReal(v.z))
+    if v is NONE or isinstance(v, (VSeq, VList, VJsonDict, VDict)):
+        it.raise_("TypeError", VStr("float() argument must be a string or a real number"))
     if isinstance(v, VStr):
         r = z3.Real(it.ctx.namer("float_of_str"))
         if it.ctx.branch(z3.Bool(it.ctx.namer("float_parse_ok"))):
